@@ -34,7 +34,7 @@ BOUNDED = {
  'C07': [('bounded/strings', ['-n', '3'], ['-n', '4'],
           'substring / normalize-space / translate / string-length through the real Exec on every string up to N characters over an alphabet with ASCII, XML and non-XML white space, 2-, 3- and 4-byte and combining characters, and every position/length from a grid with fractions, negatives, NaN and infinities, compared with an independent character-level oracle; results checked for UTF-8 validity')],
  'C08': [('bounded/parse', ['-n', '2', '-sample', '1500'], ['-n', '3', '-sample', '6000'],
-          'the generated lexer/GLL parser behind BuildExpr: (1) every operator tree up to depth N (sampled from depth 2) over 23 leaves incl. names spelling axes/node types, names with - . digits, paths, calls, variables, rendered with minimal and redundant parentheses and three white-space layouts, must evaluate through BuildExpr+Exec to the value an independent evaluator computes on the tree (precedence, associativity, * / operator-name disambiguation); (2) BuildExpr must accept exactly the strings an independent recursive-descent recogniser of XPath 1.0 (plus the function-step extension) accepts, over all renderings and their single-token deletions, duplications and swaps, and never panic')],
+          'the generated lexer/GLL parser behind BuildExpr: (1) every operator tree up to depth N (sampled from depth 2) over 23 leaves incl. names spelling axes/node types, names with - . digits, paths, calls, variables, rendered with minimal and redundant parentheses and three white-space layouts, must evaluate through BuildExpr+Exec to the value an independent evaluator computes on the tree (precedence, associativity, * / operator-name disambiguation); (2) BuildExpr must accept exactly the strings an independent recursive-descent recogniser of XPath 1.0 (plus the function-step extension) accepts, over all renderings and their single-token deletions, duplications and swaps, and never panic; (3) building and evaluating the same string twice gives the same result')],
  'C09': [('bounded/xml', ['-n', '3'], ['-n', '4'],
           'the document-to-tree mapping of ReadXml: abstract documents (namespace declarations incl. default, override, undeclaration; prefixed and unprefixed names; attributes incl. xml:lang; text, CDATA, references, comments, processing instructions; prolog/epilog variants; three 8-bit encodings) serialised, read with the real ReadXml and compared node by node with the XPath data model computed from the abstract document; 15 malformed inputs must be rejected')],
  'C15': [('bounded/xml', ['-n', '3'], ['-n', '4'], 'no panic / no nil-nil in ReadXml on the enumerated documents and the malformed inputs (the same stand-in as C09)'),
